@@ -2,6 +2,19 @@ from mindsdb_sql.exceptions import PlanningException
 from mindsdb_sql.planner.step_result import Result
 
 
+def same_value(a, b):
+    # equality of step attributes: equal steps have to print the same, so 1, 1.0 and True are different values and
+    # the items of a dict are compared in their order
+    if isinstance(a, (bool, int, float)) and isinstance(b, (bool, int, float)):
+        return type(a) == type(b) and a == b
+    if isinstance(a, dict) and isinstance(b, dict):
+        return (len(a) == len(b)
+                and all(same_value(ka, kb) and same_value(a[ka], b[kb]) for ka, kb in zip(a, b)))
+    if isinstance(a, (list, tuple)) and isinstance(b, (list, tuple)):
+        return type(a) == type(b) and len(a) == len(b) and all(same_value(x, y) for x, y in zip(a, b))
+    return a == b
+
+
 class PlanStep:
     def __init__(self, step_num=None):
         self.step_num = step_num
@@ -21,7 +34,7 @@ class PlanStep:
             if k == 'result_data':
                 continue
 
-            if getattr(self, k) != getattr(other, k):
+            if not same_value(getattr(self, k), getattr(other, k)):
                 return False
 
         return True
